@@ -916,7 +916,9 @@ func TestVerifC19Cache(t *testing.T) {
 	vC19LeakReplay(tr)
 	vC19OverlongReplay(tr)
 	vC19CorpusReplay(t, tr)
+	vC19TreeCorpusReplay(t, tr)
 	vC19DenialSweep(tr)
+	vC19RelaySweep(tr)
 	vC19FailureSweep(tr)
 	for c := 0; c < n; c++ {
 		if c%4 == 3 {
@@ -1027,6 +1029,83 @@ func vC19CorpusReplay(t *testing.T, tr *vC19Trace) {
 		}
 		vC19ExecHistory(tr, b, time.Duration(h.Cfg.EcsMaxS)*time.Second, h.Cfg.Prefetch, false,
 			func(*ecs.Policy, [2]int) []vC19Planned { return plan }, "cache-corpus-"+h.Name)
+	}
+}
+
+// ---- corpus: fixed request trees from $VERIF_CORPUS/denial_trees.json (alias chains against the seeded shared
+// denial state), replayed first on every run
+type vC19CorpusTree struct {
+	Name string `json:"name"`
+	Cfg  struct {
+		Enabled bool     `json:"enabled"`
+		F4      uint8    `json:"f4"`
+		F6      uint8    `json:"f6"`
+		M4      uint8    `json:"m4"`
+		M6      uint8    `json:"m6"`
+		Nets    []string `json:"nets"`
+	} `json:"cfg"`
+	Remote string         `json:"remote"`
+	Opt    bool           `json:"opt"`
+	ECS    *vC19CorpusECS `json:"ecs"`
+	CD     bool           `json:"cd"`
+	Wire   bool           `json:"wire"`
+	Nodes  []struct {
+		Kind int  `json:"kind"`
+		Flip bool `json:"flip"`
+	} `json:"nodes"`
+}
+
+func vC19TreeCorpusReplay(t *testing.T, tr *vC19Trace) {
+	dir := os.Getenv("VERIF_CORPUS")
+	if dir == "" {
+		return
+	}
+	raw, err := os.ReadFile(dir + "/denial_trees.json")
+	if err != nil {
+		return
+	}
+	var ts []vC19CorpusTree
+	if err := json.Unmarshal(raw, &ts); err != nil {
+		t.Fatalf("corpus trees: %v", err)
+	}
+	for _, ct := range ts {
+		b := vC19BuildArgs{enabled: ct.Cfg.Enabled, f4: ct.Cfg.F4, f6: ct.Cfg.F6, m4: ct.Cfg.M4, m6: ct.Cfg.M6, nets: ct.Cfg.Nets}
+		cl := vC19Client{remote: net.IP(vC19CorpusBytes(t, ct.Remote)), hasOPT: ct.Opt}
+		if ct.ECS != nil {
+			cl.opts = []dns.EDNS0{vC19CorpusOption(t, ct.ECS)}
+		}
+		var nodes []*vC19Node
+		for _, n := range ct.Nodes {
+			nodes = append(nodes, &vC19Node{kind: n.Kind, flipCD: n.Flip})
+		}
+		vC19ExecTree(tr, b, nodes, cl, ct.CD, ct.Wire, "denial-corpus-"+ct.Name)
+	}
+}
+
+// the systematic relay part (every run): alias chains of 1-3 plain hops in front of a creation probe, every
+// pattern of responses that come back with the CD bit flipped (so that every mix of CD=0 / CD=1 sub-queries,
+// inherited bypass and CD-marked proofs occurs), CD=0 and CD=1 roots, message- and wire-born: which writer
+// on the way up — if any — records the denial the leaf learnt
+func vC19RelaySweep(tr *vC19Trace) {
+	remote := vC19V4(203, 0, 113, 77)
+	for hops := 1; hops <= 3; hops++ {
+		for pat := 0; pat < 1<<(hops+1); pat++ {
+			for _, cd := range []bool{false, true} {
+				if cd && pat%3 != 0 { // the CD roots: a third of the patterns is enough (nothing may be recorded)
+					continue
+				}
+				var nodes []*vC19Node
+				for i := 0; i <= hops; i++ {
+					kind := 3
+					if i == hops {
+						kind = 2
+					}
+					nodes = append(nodes, &vC19Node{kind: kind, flipCD: pat&(1<<i) != 0})
+				}
+				cl := vC19Client{remote: remote, hasOPT: pat%2 == 0}
+				vC19ExecTree(tr, vC19BuildArgs{enabled: hops != 2}, nodes, cl, cd, (pat+hops)%2 == 0, "denial-relay")
+			}
+		}
 	}
 }
 
